@@ -155,4 +155,26 @@ def aug_arg_fn(s, k):
     return k * s
 
 
-EDGE_FNS = [ann_rebind_fn, walrus_rebind_fn, unpack_call_fn, chained_rebind_fn, nested_def_fn, aug_arg_fn]
+N_INT = 2
+ITEMS = [1.0, 2.5]
+LABEL = "fast"
+
+
+def int_global_fn(s, k):
+    return k * s * N_INT
+
+
+def list_global_fn(s, k):
+    return k * s * ITEMS[1]
+
+
+def str_global_fn(s, k):
+    return k * s * (2.0 if LABEL == "fast" else 1.0)
+
+
+def attr_global_fn(s, k):
+    return k * s * math.tau / math.pi
+
+
+EDGE_FNS = [ann_rebind_fn, walrus_rebind_fn, unpack_call_fn, chained_rebind_fn, nested_def_fn, aug_arg_fn,
+            int_global_fn, list_global_fn, str_global_fn, attr_global_fn]
